@@ -222,7 +222,7 @@ func (m *memFile) Seek(off int64, whence int) (int64, error) {
 }
 
 func independent(c *vm.Ctx, r *vm.Rand, G, rounds int) {
-	jobs := indepJobs()
+	jobs := append(indepJobs(), indepMoreJobs()...)
 	// alone first
 	type key struct {
 		job  int
@@ -282,4 +282,7 @@ func independent(c *vm.Ctx, r *vm.Rand, G, rounds int) {
 		return
 	}
 	c.Cover("independent.ok")
+	for _, j := range jobs {
+		c.Cover("independent.ok." + j.name)
+	}
 }
